@@ -72,7 +72,8 @@ class TwistConstants:
 
 
 def work(item):
-    order, nz, nq, tdeg, tpath, rstart, twist_mode, canary = item
+    order, nz, nq, tdeg, tpath, rstart, twist_mode, canary = item[:8]
+    dz_item = item[8] if len(item) > 8 else Fr(3, 4)
     res = H.worker_result()
     m = dist.mods()
     adv = H.repo_import('pygyro.advection.advection')
@@ -85,7 +86,7 @@ def work(item):
     rvals = [Fr(1) + Fr(i, 2) for i in range(nr)]
     iota0 = Fr(3, 4) * R0 / rvals[0]
     twists = [TWISTS[(i + 1) % 4] if twist_mode == 'radial' else (Fr(0) if twist_mode == 'zero' else rvals[i] * iota0 / R0) for i in range(nr)]
-    dz = Fr(3, 4)
+    dz = dz_item
     qbreaks = [TWO_PI * Fr(i, nq) for i in range(nq + 1)]
     T = oracle_knots(qbreaks, tdeg, True, tpath)
 
@@ -119,7 +120,11 @@ def work(item):
             if kind == 'abort' and not val.inconclusive:
                 continue
             res['obligations'] += 1
-            res['inconclusive'].append('parallel gradient: %s %r %r' % (kind, val, item[:7]))
+            prob = float_replay(m, adv, item, rvals, twists, dz, qbreaks, T) if kind == 'exc' else None
+            if prob:
+                res['violations'].append(('pargrad:exception', '%s: %s / %s' % (type(val).__name__, str(val)[:100], prob), dict(kind='pargrad', item=[str(x) for x in item[:9]], concrete=prob)))
+            else:
+                res['inconclusive'].append('parallel gradient: %s %r %r' % (kind, val, item[:7]))
             continue
         phi, qpts = st['phi'], [symx.fval(p) for p in st['qpts']]
         shifts, w = fd_weights(order)
@@ -179,7 +184,7 @@ def work(item):
 
 def float_replay(m, adv, item, rvals, twists, dz, qbreaks, T):
     """real float code vs. the oracle formula in floats on a random potential"""
-    order, nz, nq, tdeg, tpath, rstart, twist_mode, _ = item
+    order, nz, nq, tdeg, tpath, rstart, twist_mode = item[:7]
     numenv.disable()
     try:
         kn = m['spl'].make_knots(np.array([float(b) for b in qbreaks]), tdeg, True)
@@ -256,6 +261,9 @@ def main():
             for rstart in ((0, 1) if twist == 'radial' else (0,)):
                 items.append((order, order + 2 if quick else order + 3, 4, 3, 'cu', rstart, twist, None))
     items.append((4, 7, 4, 2, 'nu', 1, 'const', None))
+    # field-line shifts of several poloidal turns (iota*dz*k/R0 > 2 pi): coarse z grid, strong twist
+    items.append((6, 8, 4, 3, 'cu', 0, 'radial', None, Fr(12)))
+    items.append((4, 7, 5, 3, 'nu', 1, 'radial', None, Fr(-30)))
     if not quick:
         items.append((6, 9, 6, 3, 'nu', 0, 'radial', None))
         items.append((5, 8, 5, 1, 'nu', 2, 'const', None))
@@ -272,7 +280,7 @@ def main():
         hit = caught.get(cn[0], False)
         run.canaries.append(dict(name=cn[0], detected=hit))
         if not hit:
-            run.inconc('canary not detected: %s' % cn[0])
+            run.canary_miss(cn[0], caught)
     numenv.enable(extra_modules=[(adv, None)])
     run.stubs = sorted(set(numenv.STUBS)) + ['numpy.linalg.solve: exact contract A x = b in Q']
     numenv.disable()
